@@ -1,8 +1,8 @@
 (* Properties/C11.v — Three-valued logic and NULL propagation.  Statements only; proofs are in
    Proofs/ExprProofs.v (any descriptor) and Proofs/ExprTableProofs.v (the descriptor table GENERATED from
    functions.FunctionMap() of the tree under check: Gen/GenFunctions.v).
-   Model: Model/Expr.v — [peval ctx e] = Materialize e, then Evaluate in variable context ctx;
-   [pevals ctx args] = the argument values, left to right; PAnd/POr are the n-ary physical nodes. *)
+   Model: Model/Expr.v — [peval orc ctx e] = Materialize e, then Evaluate in variable context ctx;
+   [pevals orc ctx args] = the argument values, left to right; PAnd/POr are the n-ary physical nodes. *)
 From Octo Require Import Expr ExprProofs ExprTableProofs GenFunctions.
 From Octo Require Import ExprCases.   (* the case formats / oracles the engine's cases.v uses: kept built with this file *)
 Local Open Scope string_scope.
@@ -10,79 +10,79 @@ Local Open Scope string_scope.
 (* AND over ANY number of operands (0, 1, 2, ... — not only k <= 3): if every operand evaluates to TRUE, FALSE
    or NULL, the node evaluates to the Kleene conjunction: FALSE if some operand is FALSE, else NULL if some
    operand is NULL, else TRUE. *)
-Theorem C11_and : forall t ctx args vs,
-  pevals ctx args = Ok vs -> Forall (fun v => is_tv v = true) vs ->
-  peval ctx (PAnd t args) = Ok (tv_val (kleene_and (map to_tv vs))).
+Theorem C11_and : forall orc t ctx args vs,
+  pevals orc ctx args = Ok vs -> Forall (fun v => is_tv v = true) vs ->
+  peval orc ctx (PAnd t args) = Ok (tv_val (kleene_and (map to_tv vs))).
 Proof. exact pand_kleene. Qed.
 Print Assumptions C11_and.
 
-Theorem C11_or : forall t ctx args vs,
-  pevals ctx args = Ok vs -> Forall (fun v => is_tv v = true) vs ->
-  peval ctx (POr t args) = Ok (tv_val (kleene_or (map to_tv vs))).
+Theorem C11_or : forall orc t ctx args vs,
+  pevals orc ctx args = Ok vs -> Forall (fun v => is_tv v = true) vs ->
+  peval orc ctx (POr t args) = Ok (tv_val (kleene_or (map to_tv vs))).
 Proof. exact por_kleene. Qed.
 Print Assumptions C11_or.
 
 (* Short circuit, in the Kleene-correct direction: once an operand is FALSE (preceded only by TRUE / NULL
    operands) the conjunction is FALSE whatever the remaining operands are — they may fail or panic, they are
    not evaluated.  Dually for OR and TRUE. *)
-Theorem C11_and_short_circuit : forall t ctx pre x post vs,
-  pevals ctx pre = Ok vs -> Forall (fun v => v = VNull \/ v = VBool true) vs -> peval ctx x = Ok (VBool false) ->
-  peval ctx (PAnd t (pre ++ x :: post)) = Ok (VBool false).
+Theorem C11_and_short_circuit : forall orc t ctx pre x post vs,
+  pevals orc ctx pre = Ok vs -> Forall (fun v => v = VNull \/ v = VBool true) vs -> peval orc ctx x = Ok (VBool false) ->
+  peval orc ctx (PAnd t (pre ++ x :: post)) = Ok (VBool false).
 Proof. exact pand_short. Qed.
 Print Assumptions C11_and_short_circuit.
 
-Theorem C11_or_short_circuit : forall t ctx pre x post vs,
-  pevals ctx pre = Ok vs -> Forall (fun v => v = VNull \/ v = VBool false) vs -> peval ctx x = Ok (VBool true) ->
-  peval ctx (POr t (pre ++ x :: post)) = Ok (VBool true).
+Theorem C11_or_short_circuit : forall orc t ctx pre x post vs,
+  pevals orc ctx pre = Ok vs -> Forall (fun v => v = VNull \/ v = VBool false) vs -> peval orc ctx x = Ok (VBool true) ->
+  peval orc ctx (POr t (pre ++ x :: post)) = Ok (VBool true).
 Proof. exact por_short. Qed.
 Print Assumptions C11_or_short_circuit.
 
 (* NOT: every descriptor the code declares under the name "not" computes Kleene negation, provided the
    operand's value is allowed by the operand's static type (a NULL is only caught if the static type allows
    NULL: that is how Materialize decides where to put null checks; C08 discharges the hypothesis). *)
-Theorem C11_not : forall t d ctx a v,
+Theorem C11_not : forall orc t d ctx a v,
   In d function_table -> fd_name d = "not" ->
-  peval ctx a = Ok v -> is_tv v = true -> has_type v (ptype a) = true ->
-  peval ctx (PCall t d [a]) = Ok (tv_val (k_not (to_tv v))).
+  peval orc ctx a = Ok v -> is_tv v = true -> has_type v (ptype a) = true ->
+  peval orc ctx (PCall t d [a]) = Ok (tv_val (k_not (to_tv v))).
 Proof. exact table_not_kleene. Qed.
 Print Assumptions C11_not.
 
 (* NULL propagation: for EVERY descriptor of the generated table whose Strict flag is set (the proof does not
    depend on its body), a call with a NULL among its argument values is NULL. *)
-Theorem C11_strict_null : forall t d ctx args vs,
+Theorem C11_strict_null : forall orc t d ctx args vs,
   In d function_table -> fd_strict d = true ->
-  pevals ctx args = Ok vs -> Forall2 (fun v a => has_type v (ptype a) = true) vs args -> In VNull vs ->
-  peval ctx (PCall t d args) = Ok VNull.
+  pevals orc ctx args = Ok vs -> Forall2 (fun v a => has_type v (ptype a) = true) vs args -> In VNull vs ->
+  peval orc ctx (PCall t d args) = Ok VNull.
 Proof. exact table_strict_null. Qed.
 Print Assumptions C11_strict_null.
 
 (* Comparisons: every descriptor named = != < <= > >= in the table is Strict (re-checked against the table on
    every run), so a comparison with a NULL operand is NULL ... *)
-Theorem C11_comparison_null : forall t d ctx args vs,
+Theorem C11_comparison_null : forall orc t d ctx args vs,
   In d function_table -> In (fd_name d) cmp_names ->
-  pevals ctx args = Ok vs -> Forall2 (fun v a => has_type v (ptype a) = true) vs args -> In VNull vs ->
-  peval ctx (PCall t d args) = Ok VNull.
+  pevals orc ctx args = Ok vs -> Forall2 (fun v a => has_type v (ptype a) = true) vs args -> In VNull vs ->
+  peval orc ctx (PCall t d args) = Ok VNull.
 Proof. exact table_cmp_null. Qed.
 Print Assumptions C11_comparison_null.
 
 (* ... and with two non-NULL operands it is TRUE or FALSE, never NULL. *)
-Theorem C11_comparison_non_null : forall t d ctx a b x y,
+Theorem C11_comparison_non_null : forall orc t d ctx a b x y,
   In d function_table -> In (fd_name d) cmp_names ->
-  pevals ctx [a; b] = Ok [x; y] -> is_null x = false -> is_null y = false ->
-  exists r, peval ctx (PCall t d [a; b]) = Ok (VBool r).
+  pevals orc ctx [a; b] = Ok [x; y] -> is_null x = false -> is_null y = false ->
+  exists r, peval orc ctx (PCall t d [a; b]) = Ok (VBool r).
 Proof. exact table_cmp_non_null. Qed.
 Print Assumptions C11_comparison_non_null.
 
 (* IS NULL / IS NOT NULL never return NULL: TRUE exactly on NULL (resp. on non-NULL), for any operand value. *)
-Theorem C11_is_null_total : forall t d ctx a v,
-  In d function_table -> fd_name d = "is null" -> peval ctx a = Ok v ->
-  peval ctx (PCall t d [a]) = Ok (VBool (is_null v)).
+Theorem C11_is_null_total : forall orc t d ctx a v,
+  In d function_table -> fd_name d = "is null" -> peval orc ctx a = Ok v ->
+  peval orc ctx (PCall t d [a]) = Ok (VBool (is_null v)).
 Proof. exact table_is_null. Qed.
 Print Assumptions C11_is_null_total.
 
-Theorem C11_is_not_null_total : forall t d ctx a v,
-  In d function_table -> fd_name d = "is not null" -> peval ctx a = Ok v ->
-  peval ctx (PCall t d [a]) = Ok (VBool (negb (is_null v))).
+Theorem C11_is_not_null_total : forall orc t d ctx a v,
+  In d function_table -> fd_name d = "is not null" -> peval orc ctx a = Ok v ->
+  peval orc ctx (PCall t d [a]) = Ok (VBool (negb (is_null v))).
 Proof. exact table_is_not_null. Qed.
 Print Assumptions C11_is_not_null_total.
 
@@ -122,12 +122,12 @@ Example C11_hypotheses_satisfiable :
   let bn := STSet [0; 3] in
   let ctx := [[VBool true; VNull; VBool true; VNull; VInt 5]] in
   let args := [PVar bn 0 0; PVar bn 0 1; PVar bn 0 2; PVar bn 0 3] in
-  pevals ctx args = Ok [VBool true; VNull; VBool true; VNull] /\
-  peval ctx (PAnd bn args) = Ok VNull /\
-  peval ctx (PCall bn (find_desc function_table "not" 0) [PVar bn 0 1]) = Ok VNull /\
+  pevals no_oracle ctx args = Ok [VBool true; VNull; VBool true; VNull] /\
+  peval no_oracle ctx (PAnd bn args) = Ok VNull /\
+  peval no_oracle ctx (PCall bn (find_desc function_table "not" 0) [PVar bn 0 1]) = Ok VNull /\
   In (find_desc function_table "not" 0) function_table /\
-  peval ctx (PCall bn (find_desc function_table "<" 0) [PVar (STSet [0;1]) 0 1; PConst (STSet [1]) (VInt 1)]) = Ok VNull /\
-  filter_run (materialize (PVar bn 0 0)) [] [[VBool true]; [VNull]; [VBool false]] = ([[VBool true]], Ok tt).
+  peval no_oracle ctx (PCall bn (find_desc function_table "<" 0) [PVar (STSet [0;1]) 0 1; PConst (STSet [1]) (VInt 1)]) = Ok VNull /\
+  filter_run (materialize no_oracle (PVar bn 0 0)) [] [[VBool true]; [VNull]; [VBool false]] = ([[VBool true]], Ok tt).
 Proof.
   cbv zeta. repeat split; try (vm_compute; reflexivity).
   assert (H : existsb (fun d => desc_eqb_key "not" 0 d) function_table = true) by (vm_compute; reflexivity).
